@@ -51,6 +51,8 @@ DAGS = {
     "a_p_b_rev": T(["A", "P", "B"], [("A", "P"), ("P", "B")], order=[2, 1, 0]),
     "a_p_q_b": T(["A", "P", "PQ", "B"], [("A", "P"), ("P", "PQ", ["scale"]), ("PQ", "B")]),
     "a_p_dfix_b": T(["A", "P", "B"], [("A", "P", ["dfix"]), ("P", "B", ["dfix"])]),
+    "ab_p_c": T(["A", "B", "P", "C"], [("A", "P"), ("B", "P", ["scale"]), ("P", "C")]),
+    "a_p_bc": T(["A", "P", "B", "C"], [("A", "P"), ("P", "B", [], {"out": "o"}), ("P", "C", ["scale"], {"out": "o"})]),
     "abc": T(["A", "B", "C"], [("A", "B"), ("B", "C")]),
     "cba_listed": T(["A", "B", "C"], [("A", "B"), ("B", "C")], order=[2, 1, 0]),
     "fan_in": T(["A", "B", "C"], [("A", "C"), ("B", "C", ["scale"])]),
@@ -95,3 +97,11 @@ RINGS_BAD = {
                [("A", "B"), ("B", "C"), ("C", "D"), ("D", "E"), ("E", "A")]),
     "all_initial_pull": T(["A", "B"], [("A", "B"), ("B", "A")]),
 }
+
+
+# staged initial-data handshake (acyclic): M.state -> S ; S.flux -> M (delayed) ; M.budget -> S
+HANDSHAKE = T(
+    [{"name": "M", "out_deps": {"o0": [], "o2": ["i1"]}},
+     {"name": "S", "out_deps": {"o1": ["i0"]}}],
+    [("M", "S"), ("S", "M", ["dfix"]), ("M", "S")])
+DOUBLE_LINK = T(["A", "B"], [("A", "B"), ("A", "B", ["scale"])])
